@@ -27,13 +27,16 @@ Import ListNotations.
 (* ---- what is read from the source on every run ------------------------ *)
 
 (* the generated helper names really extend the template's name, the map's two
-   helper names differ, and _cleanup descends into the elements of a sequence *)
+   helper names differ, _cleanup descends into the elements of a sequence, and the
+   cleanuper's keep_symbols is a private copy of the constructor argument (so the
+   environment [grammar_env g keep start] of a parser object depends on its own
+   constructor arguments only, not on other parser objects given the same set) *)
 Theorem source_shape :
   sfx_tail <> [] /\ sfx_kv_pair <> [] /\ sfx_kv_tail <> [] /\ sfx_element <> [] /\
-  sfx_kv_pair <> sfx_kv_tail /\ seq_cleaned = true.
+  sfx_kv_pair <> sfx_kv_tail /\ seq_cleaned = true /\ keep_copied = true.
 Proof.
   destruct sfx_nonempty as (A & B & C & D').
-  exact (conj A (conj B (conj C (conj D' (conj sfx_pair_tail_differ eq_refl))))).
+  exact (conj A (conj B (conj C (conj D' (conj sfx_pair_tail_differ (conj eq_refl eq_refl)))))).
 Qed.
 Print Assumptions source_shape.
 
@@ -335,6 +338,30 @@ Example run_list_map :
   Ok (mkTe sE true (CList [CStr [97]%Z; CDict [(CStr [107]%Z, CStr [100]%Z)]; CList []])).
 Proof. vm_compute. split; reflexivity. Qed.
 Print Assumptions run_list_map.
+
+(* ---- one parser object, several calls ---------------------------------- *)
+
+(* The result of a call depends on the raw tree of THAT call and on the tables the
+   constructor made, not on the calls made before on the same parser object (other
+   texts, explicit start symbols, calls without cleanup): the model's parser state
+   is the cleanup environment, a call returns it unchanged, and the k-th result of
+   any sequence of calls is the cleanup of the k-th tree.  So list_denote,
+   map_denote, seq_denote and nested speak about every call of a history.  That
+   the implementation has no such memory either is what the history cases of the
+   correspondence check compare (harness/props/c05.py, kind "hist"). *)
+Theorem history_independent : forall E pre r post,
+  fst (call_step E r) = E /\
+  nth_error (run_calls E (pre ++ r :: post)) (length pre) = Some (cleanup E r).
+Proof. intros E pre r post. exact (conj (call_state_constant E r) (run_calls_nth E pre r post)). Qed.
+Print Assumptions history_independent.
+
+(* a list with a map and an empty list, then "a" from the start symbol VALUE (the
+   item symbol), then the first text again: the same containers both times *)
+Example run_history :
+  run_calls (env_of w2_g [] sE true) [w2_raw; w2_value_raw; w2_raw] =
+  [Ok w2_clean; Ok (mkTe sWORD true (CStr [97]%Z)); Ok w2_clean].
+Proof. exact w2_history. Qed.
+Print Assumptions run_history.
 
 (* nullable item: "[a, ]" gives [a] (the empty last item is the final delimiter),
    "[a, , ]" gives [a, None] *)
